@@ -13,8 +13,6 @@ oracle : the same statement in exact integer arithmetic in Python on the rule th
          failing-input search and predicts which obligations are refuted (those become ``refuted_*`` lemmas).
 """
 import os
-import re
-import time
 from fractions import Fraction
 
 import numpy as np
@@ -24,9 +22,19 @@ from .. import c08_gen as G
 from .. import c08_oracle as O
 from ..core import scan_forbidden
 
-TOLV = {'tol45': Fraction(1, 2 ** 45), 'tol46': Fraction(1, 2 ** 46), 'tol48': Fraction(1, 2 ** 48),
-        'tolq': Fraction(3, 2 ** 48)}
+TOL45 = Fraction(1, 2 ** 45)
 DELTAV = Fraction(1, 2 ** 50)
+GRID = 2 ** 52          # internal tolerances are multiples of 2^-52
+
+
+def ceil_grid(x):
+    """smallest multiple of 2^-52 that is >= x (and > 0)"""
+    k = -((-Fraction(x) * GRID) // 1)
+    return Fraction(max(int(k), 1), GRID)
+
+
+def qlit(fr):
+    return f'({fr.numerator} # {fr.denominator})'
 MAX_DIRECT_SECONDS = 150.0
 
 
@@ -100,7 +108,7 @@ def tensor_close(dC, d1, d2):
 
 # ------------------------------------------------------------------------------ the check
 
-def run(ctx, only=None):
+def run(ctx):
     ctx.trusted += ['the closed form a!b!c!/(a+b+c+d)! (Dirichlet) for the integral of a monomial over the unit d-simplex '
                     'and Fubini for product cells are taken as the definition of the exact integral (Model.C08_Rules.exactQ)',
                     'Python Fraction(float) / float.hex as the exact value of a binary64 (dump of the rules)',
@@ -124,7 +132,6 @@ def run(ctx, only=None):
     for key, d in dumps.items():
         if d.kind == 'rule' and len(d.nodes) <= D.MAX_POINTS:
             ints[key] = D.as_ints(d, kx)
-    t_dump = time.time()
     ctx.extra['orders_checked'] = {c: [D.NMIN, nm[c]] for c in D.CELLS}
     ctx.extra['raising_orders'] = {c: [n for (cc, n), d in sorted(dumps.items()) if cc == c and d.kind == 'raises'] for c in D.CELLS}
     ctx.extra['node_scale_bits'] = kx
@@ -152,7 +159,7 @@ def run(ctx, only=None):
         if ck not in evalcache:        # orders are visited from the largest down
             if key in ints:
                 nodes_int, kw = ints[key]
-                evalcache[ck] = O.evaluate(d, nodes_int, kx, kw, nadv, rng=ctx.rng, budget=ctx.n(400000, 3000000))
+                evalcache[ck] = O.evaluate(d, nodes_int, kx, kw, nadv, rng=ctx.rng, budget=ctx.n(400000, 600000))
             else:
                 kxx = max(x.denominator.bit_length() - 1 for p, _ in d.nodes for x in p)
                 nodes_int, kw = D.as_ints(d, kxx)
@@ -190,26 +197,31 @@ def run(ctx, only=None):
     plan = _plan(ctx, dumps, ints, status, known, audits)
     files = _write(ctx, dumps, ints, status, plan, kx, nm, audits)
 
-    # ---- 4. compile: data -> checks (parallel) -> assembly -> property file
+    # ---- 4. compile: data -> checks (parallel) -> assembly -> property file; meanwhile (5) the correspondence of the
+    #         integer sums computed by the Coq model on the generated data with the oracle's integers and (6) more of the
+    #         implementation (dispatch on elements, orders far outside the tables) run in a second thread
+    from concurrent.futures import ThreadPoolExecutor
     ok, _ = compile_parallel(ctx, files['data'])
-    if ok:
-        ok, failed = compile_parallel(ctx, files['checks'], timeout=900)
-        for rel, lemma in failed:
-            # the oracle and the Coq checker disagree about an item: search harder on that rule
-            ctx.log(f'checker and oracle disagree at {lemma}')
-    if ok:
-        ok = ctx.compile_dyn(['gen/C08_All.v'], timeout=600)
-    ctx.prove()
     ctx.extra['excluded_known_findings'] = plan['excluded']
     ctx.extra['refuted_in_coq'] = plan['refuted']
     ctx.extra['routes'] = plan['route_count']
+    ctx.extra['largest_established_bound_per_cell'] = {c: float(max([t for (cc, _), t in plan['tol'].items() if cc == c] or [0])) for c in D.CELLS}
 
-    # ---- 5. correspondence: integer sums computed by the Coq model on the generated data == oracle's integers
-    if not any(b['name'].startswith('gen/C08_Data') for b in ctx.broken if b['kind'] == 'proof'):
-        _correspond(ctx, dumps, ints, audits, status, files['module_of'])
-
-    # ---- 6. more of the implementation: dispatch on elements, orders far outside the tables
-    _oracle_extra(ctx, dumps)
+    def side():
+        if ok:
+            _correspond(ctx, dumps, ints, audits, status, files['module_of'])
+        _oracle_extra(ctx, dumps)
+    with ThreadPoolExecutor(1) as ex:
+        fut = ex.submit(side)
+        ok2 = ok
+        if ok2:
+            ok2, failed = compile_parallel(ctx, files['checks'], timeout=900)
+            for rel, lemma in failed:
+                ctx.log(f'checker and oracle disagree at {lemma}')
+        if ok2:
+            ctx.compile_dyn(['gen/C08_All.v'], timeout=600)
+        ctx.prove()
+        fut.result()
 
 
 def _report(ctx, d, a, nadv):
@@ -261,12 +273,11 @@ def _plan(ctx, dumps, ints, status, known, audits):
                 k1, k2 = (f1, N), (f2, N)
                 if plan['route'].get(k1) and plan['route'].get(k2):
                     close, tot = tensor_close(dumps[(cell, N)], dumps[k1], dumps[k2])
-                    e1, e2 = TOLV[plan['tol'][k1]], TOLV[plan['tol'][k2]]
-                    for target in dict.fromkeys([G.TOLINT[cell], 'tol45']):
-                        if close and e1 + e2 + e1 * e2 + DELTAV <= TOLV[target]:
-                            route = ('tensor', f1, f2)
-                            plan['tol'][(cell, N)] = target
-                            break
+                    e1, e2 = plan['tol'][k1], plan['tol'][k2]
+                    target = ceil_grid(e1 + e2 + e1 * e2 + DELTAV)
+                    if close and target <= TOL45:
+                        route = ('tensor', f1, f2)
+                        plan['tol'][(cell, N)] = target
             if route is None:
                 nq = len(dumps[(cell, N)].nodes)
                 parts, nmon = G.plan_parts(cell, nadv, nq)
@@ -275,12 +286,10 @@ def _plan(ctx, dumps, ints, status, known, audits):
                     ctx.broke('proof', f'rule {cell} order {N}', f'no tensor structure and a direct check would take ~{cost:.0f}s')
                     plan['unproved'].append((cell, N))
                     continue
-                # the sharpest of the internal tolerances that the measured defect meets with a factor 2 to spare
-                # (the stated bound is 2^-45 in any case)
-                cands = [G.TOLINT[cell]] if cell in G.PRIMITIVE else []
-                tolname = next((t for t in cands + ['tol46', 'tol45'] if 2 * worst <= TOLV[t]), 'tol45')
+                # the bound established for this rule: its measured defect plus a small margin for the outward rounding
+                # of the fast checker, on the 2^-52 grid (the stated bound is 2^-45 in any case)
                 route = ('direct', parts, nmon)
-                plan['tol'][(cell, N)] = tolname
+                plan['tol'][(cell, N)] = min(ceil_grid(worst * Fraction(101, 100) + Fraction(1, 2 ** 56)), TOL45)
             for n in ns:
                 plan['route'][(cell, n)] = route if n == N else ('alias', N)
                 plan['tol'][(cell, n)] = plan['tol'][(cell, N)]
@@ -348,7 +357,7 @@ def _write(ctx, dumps, ints, status, plan, kx, nm, audits):
         s = G.sfx(cell, n)
         if route[0] == 'direct':
             nadv = max(n, 0)
-            sh, r, tol = G.coq_shape(cell), G.rname(cell, n), plan['tol'][(cell, n)]
+            sh, r, tol = G.coq_shape(cell), G.rname(cell, n), qlit(plan['tol'][(cell, n)])
             jobs = classes.setdefault(cell, [])
             jobs.append((0.05, f'Lemma nodes_{s} : nodes_ok {sh} {r} && nodes_nonneg {r} = true.\n' + VM, [(cell, n)]))
             for i, (start, ln, cost) in enumerate(route[1]):
@@ -396,7 +405,7 @@ def _write(ctx, dumps, ints, status, plan, kx, nm, audits):
         for N, ns in sorted(plan['groups'][cell].items()):
             if (cell, N) not in plan['route']:
                 continue
-            route, tol = plan['route'][(cell, N)], plan['tol'][(cell, N)]
+            route, tol = plan['route'][(cell, N)], qlit(plan['tol'][(cell, N)])
             s, r, nadv = G.sfx(cell, N), G.rname(cell, N), max(N, 0)
             if route[0] == 'direct':
                 parts = '; '.join(f'mpart {sh} {nadv} {st} {ln}' for st, ln, _ in route[1])
@@ -409,7 +418,7 @@ def _write(ctx, dumps, ints, status, plan, kx, nm, audits):
                 _, f1, f2 = route
                 a += (f'Lemma g_{s} : rule_okQ {sh} (toQ {r}) {nadv} {tol}.\n'
                       f'Proof. exact (tensor_close_ok {G.coq_shape(f1)} {G.coq_shape(f2)} {G.rname(f1, N)} {G.rname(f2, N)} {r} {nadv} '
-                      f'{plan["tol"][(f1, N)]} {plan["tol"][(f2, N)]} {G.DELTA} {tol} p_{G.sfx(f1, N)} p_{G.sfx(f2, N)} tc_{s} ltac:(vm_compute; reflexivity)). Qed.\n')
+                      f'{qlit(plan["tol"][(f1, N)])} {qlit(plan["tol"][(f2, N)])} {G.DELTA} {tol} p_{G.sfx(f1, N)} p_{G.sfx(f2, N)} tc_{s} ltac:(vm_compute; reflexivity)). Qed.\n')
             for n in ns:
                 sn = G.sfx(cell, n)
                 a += (f'Lemma p_{sn} : rule_okQ {sh} (toQ {G.rname(cell, n)}) {max(n, 0)} {tol}.\n'
@@ -425,7 +434,7 @@ def _write(ctx, dumps, ints, status, plan, kx, nm, audits):
             steps.append('apply Forall_cons; [exact I|].')
         elif (cell, n) in plan['route']:
             tab.append(f'({cid[cell]}, {G.zlit(n)}%Z, Rule {G.rname(cell, n)})')
-            steps.append(f'apply Forall_cons; [exact (rule_ok_weaken _ _ _ _ {plan["tol"][(cell, n)]} tol45 (le_n _) ltac:(qle) p_{sn})|].')
+            steps.append(f'apply Forall_cons; [exact (rule_ok_weaken _ _ _ _ {qlit(plan["tol"][(cell, n)])} tol45 (le_n _) ltac:(qle) p_{sn})|].')
         else:
             # refuted / malformed / unprovable entry
             rule = G.rname(cell, n) if (cell, n) in ints else '(mkR 1 1 [])   (* not written out *)'
